@@ -60,11 +60,10 @@ Definition witnesses : list value :=
   [wit_tuple; wit_enum; wit_collision; wit_qname; wit_init; wit_std; wit_ok].
 
 (* the other clauses of the guard hold: each witness isolates one clause *)
-Definition only_array W v := negb (g_array W v) && g_imports W v && g_raw W v && g_init W v && g_std W v.
-Definition only_imports W v := g_array W v && negb (g_imports W v) && g_raw W v && g_init W v && g_std W v.
-Definition only_raw W v := g_array W v && g_imports W v && negb (g_raw W v) && g_init W v && g_std W v.
-Definition only_init W v := g_array W v && g_imports W v && g_raw W v && negb (g_init W v) && g_std W v.
-Definition only_std W v := g_array W v && g_imports W v && g_raw W v && g_init W v && negb (g_std W v).
+Definition only_array W v := negb (g_array W v) && g_imports W v && g_init W v && g_std W v.
+Definition only_imports W v := g_array W v && negb (g_imports W v) && g_init W v && g_std W v.
+Definition only_init W v := g_array W v && g_imports W v && negb (g_init W v) && g_std W v.
+Definition only_std W v := g_array W v && g_imports W v && g_init W v && negb (g_std W v).
 
 Lemma array_refuted : wf W_wit wit_tuple = true /\ only_array W_wit wit_tuple = true /\ roundtrip W_wit wit_tuple = false.
 Proof. vm_compute. auto 10. Qed.
@@ -74,7 +73,8 @@ Proof. vm_compute. auto 10. Qed.
 Lemma import_collision_refuted :
   wf W_wit wit_collision = true /\ only_imports W_wit wit_collision = true /\ roundtrip W_wit wit_collision = false.
 Proof. vm_compute. auto 10. Qed.
-Lemma qname_refuted : wf W_wit wit_qname = true /\ only_raw W_wit wit_qname = true /\ roundtrip W_wit wit_qname = false.
+(* QName text pasted unescaped: repaired in /repo 06e145c; kept as a regression witness *)
+Lemma qname_fixed : wf W_wit wit_qname = true /\ guard W_wit wit_qname = true /\ roundtrip W_wit wit_qname = true.
 Proof. vm_compute. auto 10. Qed.
 Lemma init_false_refuted : wf W_wit wit_init = true /\ only_init W_wit wit_init = true /\ roundtrip W_wit wit_init = false.
 Proof. vm_compute. auto 10. Qed.
